@@ -162,6 +162,7 @@ var recvEffects = map[string]recvEffect{
 	// the cron store's timer (cron/cron.go): the schedule heap is a glue container
 	"CronStore.schedule.Len":  {"GoCron.schedLen", "pure", false},
 	"CronStore.schedule.Peek": {"GoCron.schedPeek", "pure", false},
+	"CronStore.schedule.Pop":  {"GoCron.schedPop", "pair", false},
 	// the observable wrapper (repository/repository.go): the core repository and the hook timer behind interfaces
 	"Repository.Repository.AddTask":          {"GoObs.coreAddTask", "pair", false},
 	"Repository.Repository.UpdateById":       {"GoObs.coreUpdateById", "pair", false},
@@ -186,7 +187,9 @@ var recvEffects = map[string]recvEffect{
 var recvFuncs = map[string]recvEffect{"sortabletask.WrapTask": {"GoMem.WrapTask", "pair", false}}
 
 // methods of the receiver that consist of library constructor calls only
-var recvMethods = map[string]string{"InMemoryRepository.init": "GoMem.init"}
+var recvMethods = map[string]string{"InMemoryRepository.init": "GoMem.init",
+	// cron/cron.go pushNext: Entry.Next, mutators, uuid, ToTask, heap push — a glue function (hand-transcribed, Gk/Cron.lean)
+	"CronStore.pushNext": "GoCron.pushNext"}
 
 // library functions that change their first argument in place
 var inplaceFuncs = map[string]string{"slices.SortStableFunc": "Go.slices_SortStableFunc"}
@@ -2395,7 +2398,7 @@ func init() {
 			// heap, entry map and mutator store are containers of the glue type; the timer logic is translated
 			[]glItem{{kind: "lean", name: "abbrev CronStore := Gk.GoCron"}},
 			it(f, "func", "CronStore.stopTimer", "CronStore.resetTimer", "CronStore.LastTimerUpdateError", "CronStore.StartTimer",
-				"CronStore.StopTimer", "CronStore.NextScheduled"),
+				"CronStore.StopTimer", "CronStore.NextScheduled", "CronStore.Peek", "CronStore.Pop"),
 		),
 	})
 }
